@@ -1,4 +1,5 @@
 #!/bin/bash
+export VERIF_EVIDENCE_DIR=/verif/.cache/seed-evidence
 # seed_matrix.sh -- for every seeded change: apply it to /repo, run EVERY registered quick check, undo it.
 # Writes seeded/MATRIX.txt: one line per (seed, check) with the exit status (1 = VIOLATION reported).
 cd /verif
